@@ -875,7 +875,14 @@ def r15_empty_image_not_addressed_directly(ck, P, rid='C04-R15'):
         raise AnalysisBroken('%s: the function that computes image_common.flags was not found' % rid)
     ck.saw(f)
     stores = {x.bb.id for x in f.insts() if x.op == 'store' and f.last_field(f.path(x.a[1])) == 'image_common.flags'}
-    clears = {x.bb.id for x in f.insts() if x.op == 'and' and any(a[0] == 'c' and (~int(a[1]) & 0xffffffff) & NOACC for a in x.a)}
+    def clears_noacc(x):
+        for a in x.a:
+            if a[0] == 'c':
+                cleared = ~int(a[1]) & 0xffffffff
+                if cleared & NOACC and bin(cleared).count('1') <= 4:         # flags &= ~(a few flag bits), not a field mask
+                    return True
+        return False
+    clears = {x.bb.id for x in f.insts() if x.op == 'and' and clears_noacc(x)}
     if not clears:
         raise AnalysisBroken('%s: no block clearing FAST_PATH_NO_ACCESSORS found in %s' % (rid, f.name))
     BITS = P.enum('image_type_t')['BITS']
